@@ -79,7 +79,11 @@ def case(spec, ctx):
             ctx.fail("layout:readings", f"{f.sensor_models[key].readings} vs sorted {sorted(m['sensors'][key])}", spec)
 
     nontrivial = False
+    earlier = []
     for p in spec["points"]:
+        for what, arr, snap in earlier:
+            if not np.array_equal(arr, snap):
+                ctx.fail("earlier-result-changed", f"the array returned by {what} changed when the filter was evaluated at another point", spec)
         env = oracle.env_of(m, p)
         with mp.workdps(oracle.DPS):
             env = {k: mp.mpf(v) for k, v in env.items()}
@@ -93,6 +97,7 @@ def case(spec, ctx):
         with ctx.formak("control_jacobian", spec):
             V = np.asarray(f.control_jacobian(dt, state, control))
         check_matrix(ctx, spec, "control_jacobian", V, st_, ct, ref, (len(st_), len(ct)))
+        earlier += [("process_jacobian", G, G.copy()), ("control_jacobian", V, V.copy())]
         if len(ct) != len(st_) and len(st_) >= 2 and ct and distinct_entries(ref, st_, ct):
             nontrivial = True
         for key in sorted(m["sensors"]):
@@ -101,6 +106,7 @@ def case(spec, ctx):
                 Hm = np.asarray(f.sensor_jacobian(key, state))
             href = oracle.ref_jac({r: m["sensors"][key][r] for r in rd}, st_, env)
             check_matrix(ctx, spec, "sensor_jacobian", Hm, rd, st_, href, (len(rd), len(st_)))
+            earlier.append(("sensor_jacobian", Hm, Hm.copy()))
             if len(rd) >= 2 and len(rd) != len(st_):
                 ctx.event("sensor_rectangular")
                 if len(rd) != len(st_) + len(ck):
